@@ -108,6 +108,8 @@ SETTINGS_POOL = [
 CALL_SETTINGS = [{"parseinfo": True}, {"ignorecase": True}, {"nameguard": False}, {"whitespace": ""}, {"source": "input.txt"},
                  {"source": "input.txt", "ignorecase": True}, {"source": "input.txt", "whitespace": ""}, {"source": "input.txt", "nameguard": False}]
 NAMES = [None, None, "A", "B", "Test"]
+SEM_HANDLES = {"S1": "tag", "S2": "eq", "S3": "num"}      # a shared semantics object is always of the same kind
+CFG_HANDLES = {"K1": {"parseinfo": True}, "K2": {"nameguard": False, "ignorecase": True}}  # and a shared config has fixed contents
 SEMS = ["none", "none", "id", "tag", "default", "num", "eq", "fa", "fb", "fc"]
 
 
@@ -261,9 +263,34 @@ def factory_sem(variant):
     return FSem
 
 
+class ReenterSem(_Counting):
+    """A semantic action that parses something else with the same model while a parse is going on (include files,
+    nested languages): the inner parse must not disturb the outer one."""
+
+    model = None
+    inner_text = None
+    depth = 0
+
+    def _default(self, ast, *args, **kwargs):
+        self._hit()
+        if self.model is not None and self.depth == 0 and self.calls == 1:
+            self.depth += 1
+            try:
+                try:
+                    inner = canon(self.model.parse(self.inner_text))
+                except Exception as e:  # noqa: BLE001
+                    inner = type(e).__name__
+            finally:
+                self.depth -= 1
+            return ["RE", inner, ast]
+        return ast
+
+
 def make_sem(kind, fault, tag=None):
     if kind == "none":
         return None
+    if kind == "reenter":
+        return ReenterSem(fault)
     if kind in ("fa", "fb", "fc"):
         return factory_sem(kind)(fault)
     sem = {"id": IdSem, "tag": TagSem, "default": DefaultOnlySem, "num": NumSem, "eq": EqSem}[kind](fault)
@@ -499,8 +526,15 @@ def exec_op(op, H, probes=None):
 
     kind = op["op"]
     fault = op.get("fault")
-    sem = make_sem(op.get("sem", "none"), fault if fault and fault["kind"] in ("failsem", "foreign") else None,
-                   tag=digest_of({k: v for k, v in op.items() if k not in ("out", "h")})[:6])
+    if op.get("semh"):
+        # one semantics object owned by the caller and given to several calls (stateless kinds only)
+        key = "sem:" + op["semh"]
+        if key not in H:
+            H[key] = ("sem", make_sem(op.get("sem", "tag"), None, tag=op["semh"]))
+        sem = H[key][1]
+    else:
+        sem = make_sem(op.get("sem", "none"), fault if fault and fault["kind"] in ("failsem", "foreign") else None,
+                       tag=digest_of({k: v for k, v in op.items() if k not in ("out", "h")})[:6])
     intr = None
     if fault and fault["kind"] == "interrupt":
         intr = Interrupt(fault["nth"], fault["exc"], tatsu_root())
@@ -509,7 +543,14 @@ def exec_op(op, H, probes=None):
     if op.get("cfg") is not None and kind in ("compile", "mparse", "pparse"):
         from tatsu.config import ParserConfig
 
-        cfg_obj = ParserConfig(**op["cfg"])  # the caller's own object: built before any fault can strike
+        if op.get("cfgh"):
+            # one ParserConfig object that the caller keeps and passes again
+            key = "cfg:" + op["cfgh"]
+            if key not in H:
+                H[key] = ("cfg", ParserConfig(**op["cfg"]))
+            cfg_obj = H[key][1]
+        else:
+            cfg_obj = ParserConfig(**op["cfg"])  # the caller's own object: built before any fault can strike
         cfg_before = canon_config(cfg_obj)
 
     def call():
@@ -542,6 +583,9 @@ def exec_op(op, H, probes=None):
                 kw["asmodel"] = True
             if sem is not None:
                 kw["semantics"] = sem
+                if isinstance(sem, ReenterSem) and kind == "mparse":
+                    sem.model = ent[1]
+                    sem.inner_text = op.get("inner", op["text"])
             if cfg_obj is not None:
                 kw["config"] = cfg_obj
             return {"value": canon(ent[1].parse(op["text"], **kw))}
@@ -601,6 +645,8 @@ def compile_(src, filename):
 def dump_handles(H):
     out = {}
     for h, (k, obj) in H.items():
+        if k in ("sem", "cfg"):
+            continue
         try:
             out[h] = dump_model(obj) if k == "model" else dump_parser(obj)
         except Exception as e:  # noqa: BLE001
@@ -835,12 +881,21 @@ def gen_call(rng, handles, models_only=False, allow_fault=True, focus=None):
             op["start"] = rng.choice(start_choices(gg))
         if rng.random() < 0.25:
             op["sem"] = rng.choice(SEMS)
+            if rng.random() < 0.25:
+                op["sem"] = "reenter"
+                op["inner"] = rng.choice(INPUTS[gg])
+            elif rng.random() < 0.3:
+                op["semh"] = rng.choice(list(SEM_HANDLES))
+                op["sem"] = SEM_HANDLES[op["semh"]]
         elif rng.random() < 0.4:
             op["asmodel"] = True
         if rng.random() < 0.2:
             op["settings"] = rng.choice(SETTINGS_POOL)
         if rng.random() < 0.1:
             op["cfg"] = rng.choice([{"parseinfo": True}, {"nameguard": False}, {"name": "Cfg"}, {"ignorecase": True}])
+            if rng.random() < 0.6:
+                op["cfgh"] = rng.choice(list(CFG_HANDLES))
+                op["cfg"] = dict(CFG_HANDLES[op["cfgh"]])
     elif parsers and r < 0.5:
         h = rng.choice(parsers)
         gg = handles[h]["g"]
@@ -860,6 +915,9 @@ def gen_call(rng, handles, models_only=False, allow_fault=True, focus=None):
             op["cfg"] = rng.choice(CALL_SETTINGS)
         if op["sem"] == "none" and rng.random() < 0.2:
             op["builder"] = rng.choice(BUILDER_POOL)
+        if op["sem"] != "none" and rng.random() < 0.4:
+            op["semh"] = rng.choice(list(SEM_HANDLES))  # the same semantics object for several models
+            op["sem"] = SEM_HANDLES[op["semh"]]
         _HCTR[0] += 1
         h = f"m{_HCTR[0]}"
         op["out"] = h
@@ -1250,7 +1308,9 @@ def op_label(op):
     if op.get("start"):
         bits.append("start")
     if op.get("cfg"):
-        bits.append("cfg")
+        bits.append("cfg" + ("-shared" if op.get("cfgh") else ""))
+    if op.get("semh"):
+        bits.append("sem-shared")
     if op.get("builder"):
         bits.append("builder=" + "+".join(sorted(op["builder"])))
     if op.get("fault"):
@@ -1432,10 +1492,21 @@ def shrink_candidates(spec: dict):
                         s["ops"][i]["settings"] = {}
                     else:
                         s["ops"][i].pop(key)
+                        if key == "cfg":
+                            s["ops"][i].pop("cfgh", None)
                     yield s
             if op.get("sem", "none") != "none" and not op.get("fault"):
                 s = copy.deepcopy(spec)
                 s["ops"][i]["sem"] = "none"
+                s["ops"][i].pop("semh", None)
+                yield s
+            if op.get("semh"):
+                s = copy.deepcopy(spec)
+                s["ops"][i].pop("semh")
+                yield s
+            if op.get("cfgh"):
+                s = copy.deepcopy(spec)
+                s["ops"][i].pop("cfgh")
                 yield s
             if op.get("asmodel"):
                 s = copy.deepcopy(spec)
